@@ -78,26 +78,38 @@ structure Reply where
   closed  : Nat := 0
   deriving Repr, DecidableEq
 
+/-- `StreamPool.getConnection(key, false, …)`: the connection of the flow, created (with a new stream from the
+    factory) when it is not in the pool. -/
+def lookupConn (st : St) (id : Nat) (dir : Bool) (ts : Int) : St × Conn × List Ev :=
+  match findConn id st.conns with
+  | some c => (st, c, [])
+  | none =>
+    ({ st with conns := insertConn (newConn id st.nextSid dir ts) st.conns, nextSid := st.nextSid + 1 },
+     newConn id st.nextSid dir ts, [.created id st.nextSid])
+
+def Conn.half (c : Conn) (isC2S : Bool) : Half := if isC2S then c.c2s else c.s2c
+def Conn.setHalf (c : Conn) (isC2S : Bool) (h : Half) : Conn :=
+  if isC2S then { c with c2s := h } else { c with s2c := h }
+
+/-- `AssembleWithContext` once the connection `c` (∈ st.conns) is known. -/
+def opSegOn (A : Arith) (st : St) (c : Conn) (ev0 : List Ev) (dir : Bool) (p : Seg) (acc : Nat) (keep : KeepRule)
+    (cmpl : CmplRule) : Res Reply :=
+  let isC2S := dir == c.firstDir
+  match assemble A st.cfg (c.half isC2S) st.used p acc keep with
+  | .ok o =>
+    let c' := c.setHalf isC2S o.half
+    let evs := o.sgs.map (fun g => Ev.sg c.id c.sid (!isC2S) g)
+    let cp := completion c' o.closed cmpl
+    let conns := if cp.2 then removeConn c.id st.conns else setConn c' st.conns
+    .ok { st := { st with conns := conns, used := o.used }, evs := ev0 ++ evs ++ cp.1 }
+  | .err k => .err k
+  | .panic k => .panic k
+
 /-- `AssembleWithContext(netFlow, t, ac)`; `dir` = wire direction of the segment. -/
 def opSeg (A : Arith) (st : St) (id : Nat) (dir : Bool) (p : Seg) (acc : Nat) (keep : KeepRule) (cmpl : CmplRule) :
     Res Reply :=
-  let (st, c, ev0) : St × Conn × List Ev :=
-    match findConn id st.conns with
-    | some c => (st, c, [])
-    | none =>
-      let c := newConn id st.nextSid dir p.ts
-      ({ st with conns := insertConn c st.conns, nextSid := st.nextSid + 1 }, c, [.created id st.nextSid])
-  let isC2S := dir = c.firstDir
-  let h := if isC2S then c.c2s else c.s2c
-  match assemble A st.cfg h st.used p acc keep with
-  | .ok o =>
-    let c := if isC2S then { c with c2s := o.half } else { c with s2c := o.half }
-    let evs := o.sgs.map (fun g => Ev.sg c.id c.sid (!isC2S) g)
-    let (cev, removed) := completion c o.closed cmpl
-    let conns := if removed then removeConn c.id st.conns else setConn c st.conns
-    .ok { st := { st with conns := conns, used := o.used }, evs := ev0 ++ evs ++ cev }
-  | .err k => .err k
-  | .panic k => .panic k
+  let r := lookupConn st id dir p.ts
+  opSegOn A r.1 r.2.1 r.2.2 dir p acc keep cmpl
 
 def connLastSeen (c : Conn) : Int :=
   if c.c2s.lastSeen < c.s2c.lastSeen then c.s2c.lastSeen else c.c2s.lastSeen
